@@ -13,7 +13,7 @@ from .rsreplay import NativeRunner
 
 PROP = 'C06'
 QUOTAS = {
-    'quick': {'cheap': 0, 'medium': 2, 'heavy': 1, 'F4:medium': 16, 'F4:heavy': 2, 'F5:medium': 2, 'F2:medium': 0, 'R:medium': 6},
+    'quick': {'cheap': 0, 'medium': 1, 'heavy': 0, 'F4:medium': 12, 'F5:medium': 1, 'F2:medium': 0, 'R:medium': 4},
     'thorough': {'cheap': 0, 'medium': 40, 'heavy': 8, 'F4:medium': 120, 'F4:heavy': 20, 'R:medium': 40},
 }
 
